@@ -316,8 +316,10 @@ Definition decl_table (d : cdecl) : option (list (str * evalue)) :=
    otherwise every listed parameter that is not already present under the same (name, location) is appended to its location's list
    (so operation-level parameters win and come first), and _check_parameters_for_conflicts runs over ALL parameters of the endpoint,
    with the python names the first call left on them and a fresh modified set. *)
+(* `other_param.name == param.name`: the stored property name went through remove_string_escapes (property_from_data), the listed
+   parameter's name did not - a name containing a double quote is therefore not recognised as already present *)
 Definition fresh_items (existing : list param) (item : list (loc * str)) : list (loc * str) :=
-  filter (fun x => negb (mem_key x (map param_key existing))) item.
+  filter (fun x => negb (mem_key x (map (fun p => (p_loc p, escape_dq (p_name p))) existing))) item.
 
 Definition phase2_input (prefix : str) (existing : list param) (item : list (loc * str)) : list param :=
   order_params (existing ++ map (param_init prefix) (fresh_items existing item)).
